@@ -26,7 +26,7 @@ ASSUMPTIONS = ["persistence model of vf/ref/persist.py (unsynced data: lost / ke
                "strace reports the syscalls of all threads in order (-f); 'set has returned' = the END marker written by the caller after set() returned",
                "pickle output is deterministic, so write payloads are reconstructed from the value"]
 MIN_COUNTS = {"quick": {"nontrivial": 300, "fsyncs_seen": 6, "writes_seen": 6, "acknowledged_reads": 200, "real_kills": 20},
-              "thorough": {"nontrivial": 6000, "fsyncs_seen": 60, "writes_seen": 60, "acknowledged_reads": 6000, "real_kills": 300}}
+              "thorough": {"nontrivial": 3000, "fsyncs_seen": 60, "writes_seen": 60, "acknowledged_reads": 3000, "real_kills": 300}}
 CASE_TIMEOUT = 900
 MIN_SHARD = 1
 SHARD_TIMEOUT = {"quick": 1500, "thorough": 7200}
